@@ -137,6 +137,64 @@ theorem json_qrep {db : Db} {log : List Entry} (hq : QRep db log) (hl : LinInv d
   · exact hq.hv_nodup
   · exact hq.hv_nonempty
 
+theorem lt_nextAfter {l : List Nat} {x : Nat} (h : x ∈ l) : x < nextAfter l := by
+  induction l with
+  | nil => cases h
+  | cons y ys ih =>
+    simp only [nextAfter]
+    simp only [List.mem_cons] at h
+    rcases h with h | h
+    · subst h; omega
+    · have := ih h; omega
+
+theorem get?_foldl_set_swap {α β : Type} [DecidableEq α] [DecidableEq β] (l : List (α × β))
+    (acc : List (β × α)) (b : β) (a : α)
+    (h : get? (l.foldl (fun d p => set d p.2 p.1) acc) b = some a) : (a, b) ∈ l ∨ get? acc b = some a := by
+  induction l generalizing acc with
+  | nil => exact Or.inr h
+  | cons p rest ih =>
+    obtain ⟨k, v⟩ := p
+    simp only [List.foldl_cons] at h
+    rcases ih _ h with h1 | h1
+    · exact Or.inl (List.mem_cons_of_mem _ h1)
+    · rw [get?_set] at h1
+      by_cases hb : b = v
+      · simp only [hb, if_true, Option.some.injEq] at h1
+        subst h1 hb
+        exact Or.inl (by simp)
+      · simp only [hb, if_false] at h1
+        exact Or.inr h1
+
+/-- the loaded database is an ordinary database again: further insertions keep working -/
+theorem json_lininv {db : Db} (hl : LinInv db) : LinInv db.jsonRoundTrip := by
+  have hl2l : (db.lidToLineage.map (fun p => (p.1, jsonLineage p.2))).foldl
+      (fun d (p : Nat × Lineage) => set d p.1 p.2) [] = db.lidToLineage.map (fun p => (p.1, jsonLineage p.2)) := by
+    rw [foldl_set_eq]
+    · simp
+    · simp only [List.nil_append]
+      rw [keys_map_val]; exact hl.lid_nodup
+  have hkeys : keys (db.lidToLineage.map (fun p => (p.1, jsonLineage p.2))) = keys db.lidToLineage :=
+    keys_map_val _ _
+  constructor
+  · intro lin lid h
+    simp only [Db.jsonRoundTrip] at h ⊢
+    rw [hl2l]
+    have hnd : (keys (db.lidToLineage.map (fun p => (p.1, jsonLineage p.2)))).Nodup := by
+      rw [hkeys]; exact hl.lid_nodup
+    rcases get?_foldl_set_swap _ [] lin lid h with h1 | h1
+    · exact get?_of_mem_nodup hnd h1
+    · simp at h1
+  · intro lid hm
+    simp only [Db.jsonRoundTrip] at hm ⊢
+    rw [hl2l, hkeys] at hm
+    exact lt_nextAfter (hl.lid_used lid hm)
+  · simp only [Db.jsonRoundTrip]
+    rw [hl2l, hkeys]; exact hl.lid_nodup
+  · intro lid hm
+    simp only [Db.jsonRoundTrip] at hm ⊢
+    rw [hl2l, hkeys] at hm
+    exact hl.lid_used lid hm
+
 /-! ### a lineage along `taxlist()` is read back unchanged, up to empty names -/
 
 /-- the lineage lists the first ranks of `taxlist()` in order (names may be empty) -/
